@@ -17,6 +17,7 @@ import LogosModel.Emit
 import LogosModel.PassesAll
 import LogosModel.StateType
 import LogosModel.Subst
+import LogosModel.Look.Utf8ClosedC
 import Std.Data.HashMap
 import LogosModel.Source
 import Std.Data.HashSet
@@ -200,10 +201,33 @@ partial def uclosure (work : List (U × Re)) (seen : Std.HashSet (U × Re)) (fue
       if viable x' then some (ustep q b, x') else none
     uclosure (succs.eraseDups ++ rest) seen fuel
 
+/-- untrusted search for the closure of the start triples under byte steps whose derivative is not empty -/
+partial def uclosureC (work : List LK.UEntry) (seen : Std.HashSet LK.UEntry) (fuel : Nat) :
+    Option (Std.HashSet LK.UEntry) :=
+  match fuel, work with
+  | 0, _ => none
+  | _, [] => some seen
+  | fuel+1, (q, p, x) :: rest =>
+    if seen.contains (q, p, x) then uclosureC rest seen fuel else
+    let seen := seen.insert (q, p, x)
+    let succs := (List.range 256).filterMap fun b =>
+      let x' := LK.derivCN p b x
+      if x' == .empty then none else some (ustep q b, LK.clsB b, x')
+    uclosureC (succs.eraseDups ++ rest) seen fuel
+
+/-- look-around patterns: "1" = proved UTF-8 closed in every context (utf8ClosedCB), "U" = not decided (the check
+over-approximates viability, so a failure is not a refutation), "L" = an assertion the model does not cover -/
+def utf8VerdictL (h : Hir) : String :=
+  if !LK.looksOK h then "L" else
+  let r := LK.lowerL h
+  match uclosureC (LK.allCls.map fun p => (.s0, p, LK.normL r)) {} 20000 with
+  | none => "U"
+  | some S => if LK.utf8ClosedCBFast S.toList r then "1" else "U"
+
 /-- "1" = proved UTF-8 closed, "0" = check failed (with the search complete), "U" = search gave up,
-"L" = contains look-around -/
+look-around patterns: see `utf8VerdictL` -/
 def utf8Verdict (h : Hir) : String :=
-  if h.hasLook then "L" else
+  if h.hasLook then utf8VerdictL h else
   let r := h.lower
   match uclosure [(.s0, norm r)] {} 20000 with
   | none => "U"
